@@ -140,6 +140,11 @@ func (w *World) verifyFunc(key string, timeout int, all bool, only string) (*fun
 		return nil, fmt.Errorf("function %s not found", key)
 	}
 	c := w.specs.Contracts[key]
+	if c != nil && c.Flags["trusted"] != "" {
+		vc := NewVC(key)
+		vc.abstract("contract of " + key + " is TRUSTED: its body is not verified against it")
+		return &funcResult{Key: key, VC: vc}, nil
+	}
 	vc, errs := w.GenFunctionFull(fn, c)
 	fr := &funcResult{Key: key, VC: vc, Errors: errs}
 	var wg sync.WaitGroup
